@@ -161,6 +161,8 @@ class CallMixin(object):
                 raise EngineError('break outside loop in %s' % func.qualname)
         finally:
             self.call_depth -= 1
+            if self.call_depth == 0:
+                self.last_locals = dict(fr.env)
             self.frames.pop()
         rt = func.ret
         if rt is not None and rt[0] in ('double', 'int', 'bint'):
